@@ -19,6 +19,7 @@ PROP = "C19"
 BATCH = 64
 BUDGET_S = {"quick": 120, "thorough": 1800}
 MAX_RUNS = {"quick": 260, "thorough": 10**9}
+MIN_RUNS = {"quick": 260, "thorough": 0}  # the quick tier explores the same runs on a loaded machine (the budget only stops it beyond these)
 OUT = "/simout/generated"
 ENV0 = {"hashseed": 0, "cache": 1000}
 ENVS = [ENV0, {"hashseed": 3, "cache": 1000}, {"hashseed": 7, "cache": 25}, {"hashseed": 11, "cache": 1000}]
